@@ -140,6 +140,12 @@ func ReadFile(r io.Reader) (File, []string, error) {
 				f.GoPackage, _ = strconv.Unquote(cons.Value)
 			}
 			f.Consts = append(f.Consts, cons)
+		case tokenKindCloseCurly, tokenKindSemicolon:
+			// the record readers may leave their closing token to this loop
+		default:
+			// anything else at the top level is a typo or a leftover; skipping it would silently
+			// drop the definition it was meant to start
+			return f, warnings, readError(tk, "unexpected %v at the top level", tk.kind)
 		}
 		nextCommentLines = []string{}
 		nextRecordOpCode = 0
